@@ -292,6 +292,7 @@ func checkC02(r *core.Run) {
 	c02Wrapper(r, a)
 	c02Wrapped(r, a)
 	c02ReportFailed(r)
+	c02BranchIDWriters(r)
 	c02Retry(r, a)
 	r.Floor("C02.order", 2)
 	r.Floor("C02.fail", 8)
@@ -788,4 +789,95 @@ func reportFlavour(w *core.World, f *types.Func, rep *reachCache, depth int) str
 		}
 	}
 	return ""
+}
+
+// c02BranchIDWriters: the branch id of the transaction context is what the phase-one report is addressed with (and
+// what decides whether there is a branch to report at all). Between the registration and the report nothing may
+// change it: the only assignments to TransactionContext.BranchID in the repository take the value from the reply
+// of BranchRegister. (A "reset" of the context in the rollback step would make the phase-one-failed report skip a
+// branch the coordinator has registered and holds locks for.)
+func c02BranchIDWriters(r *core.Run) {
+	w := r.W
+	tc := w.NamedType("pkg/datasource/sql/types", "TransactionContext")
+	if tc == nil {
+		r.Anchor("C02.fail", nil, "types.TransactionContext")
+		return
+	}
+	var fld *types.Var
+	if st, ok := tc.Underlying().(*types.Struct); ok {
+		for i := 0; i < st.NumFields(); i++ {
+			if st.Field(i).Name() == "BranchID" {
+				fld = st.Field(i)
+			}
+		}
+	}
+	if fld == nil {
+		r.Anchor("C02.fail", nil, "TransactionContext.BranchID")
+		return
+	}
+	n := 0
+	for _, f := range w.SortedFuncs() {
+		if w.IsTestFile(f.Decl.Pos()) || f.Decl.Body == nil || strings.Contains(f.Pkg.PkgPath, "/mock") {
+			continue
+		}
+		info := f.Pkg.TypesInfo
+		ast.Inspect(f.Decl.Body, func(x ast.Node) bool {
+			switch s := x.(type) {
+			case *ast.AssignStmt:
+				for i, l := range s.Lhs {
+					sel, ok := ast.Unparen(l).(*ast.SelectorExpr)
+					if !ok || info.Uses[sel.Sel] != types.Object(fld) {
+						continue
+					}
+					n++
+					r.Sites++
+					r.Fn(f)
+					o := "<none>"
+					if len(s.Lhs) == len(s.Rhs) {
+						o = origin(f, s.Rhs[i], 4)
+					}
+					r.Check(strings.Contains(o, "BranchRegister("), "C02.fail", core.ShortKey(f.Obj)+" assigns TransactionContext.BranchID from the registration reply", w.Pos(s.Pos()), o,
+						"TransactionContext.BranchID is assigned "+o+" here, not the branch id the coordinator answered: the phase-one report that follows is addressed with this field (and is skipped when it is 0), so a registered branch is never reported phase-one-failed and keeps its global locks")
+				}
+			case *ast.IncDecStmt:
+				if sel, ok := ast.Unparen(s.X).(*ast.SelectorExpr); ok && info.Uses[sel.Sel] == types.Object(fld) {
+					n++
+					r.Sites++
+					r.Bad("C02.fail", core.ShortKey(f.Obj)+" assigns TransactionContext.BranchID from the registration reply", w.Pos(s.Pos()), "TransactionContext.BranchID is changed in place")
+				}
+			case *ast.UnaryExpr:
+				// *ctx = TransactionContext{} / address taken of the field
+				if s.Op == token.AND {
+					if sel, ok := ast.Unparen(s.X).(*ast.SelectorExpr); ok && info.Uses[sel.Sel] == types.Object(fld) {
+						n++
+						r.Sites++
+						r.Bad("C02.fail", core.ShortKey(f.Obj)+" assigns TransactionContext.BranchID from the registration reply", w.Pos(s.Pos()), "the address of TransactionContext.BranchID is taken: writes through it are not followed")
+					}
+				}
+			}
+			return true
+		})
+		// whole-struct overwrite of an existing context through a pointer: *p = TransactionContext{...}
+		ast.Inspect(f.Decl.Body, func(x ast.Node) bool {
+			as, ok := x.(*ast.AssignStmt)
+			if !ok {
+				return true
+			}
+			for _, l := range as.Lhs {
+				if se, ok := ast.Unparen(l).(*ast.StarExpr); ok {
+					if t := info.TypeOf(se.X); t != nil {
+						if p, ok := t.Underlying().(*types.Pointer); ok && p.Elem() == types.Type(tc) {
+							n++
+							r.Sites++
+							r.Bad("C02.fail", core.ShortKey(f.Obj)+" assigns TransactionContext.BranchID from the registration reply", w.Pos(as.Pos()), "an existing TransactionContext is overwritten as a whole ("+core.ExprString(l)+" = ...): its BranchID no longer is the registered one")
+						}
+					}
+				}
+			}
+			return true
+		})
+	}
+	if n == 0 {
+		r.Bad("C02.fail", "assignments to TransactionContext.BranchID", "", "no assignment of the registered branch id found")
+	}
 }
